@@ -246,6 +246,24 @@ def check_cases(ctx, cases):
                     ctx.fail(case, "an object hashed and pickled in another process is equal to the one built here but hashes differently (a hash remembered across processes)", "equal-but-different-hash:other-process")
             except TypeError:
                 pass
+        # copies (copy, deepcopy, pickle round trip) are equal to the original and hash like it
+        import pickle as _pk
+
+        for how, mk in (("copy", copy.copy), ("deepcopy", copy.deepcopy), ("pickle", lambda x: _pk.loads(_pk.dumps(x)))):
+            try:
+                oc = mk(o)
+            except Exception as e:
+                ctx.fail(case, f"{how} of a {name} raises {type(e).__name__}", "copy-raises:" + how)
+                continue
+            ctx.count("channel=copies")
+            if not (oc == o and o == oc):
+                ctx.fail(case, f"a {how} of a {name} is not equal to the original", "copy-not-equal:" + how)
+                continue
+            try:
+                if hash(oc) != hash(o):
+                    ctx.fail(case, f"a {how} of a {name} is equal to the original but hashes differently", "equal-but-different-hash:" + how)
+            except TypeError:
+                pass
         # looking at an object never changes it: hash and equality are taken BEFORE anything else is
         # called on it, then every read-only method is called, then they are taken again
         try:
